@@ -1,6 +1,8 @@
 (* C05 — the ANN index always refers to exactly the live documents. *)
 From Coq Require Import ZArith Floats List.
 From Syz Require Import Quant Dist Search Lsh LshProofs ApproxNonEmpty ApproxCovering.
+(* the tables of the model are the ones regenerated from the Go sources on this run *)
+From Syz Require GenTablesOk.
 Open Scope Z_scope.
 
 (* inv t D: the tree t indexes exactly the documents D — every id exactly once, none missing,
